@@ -1,5 +1,7 @@
 import Model.C02
 import Proofs.C02
+import Props.C10
+import Props.C11
 /-!
 # C02 — every successful quorum write shares a replica with every successful quorum read
 
@@ -46,6 +48,61 @@ theorem write_acks_distinct_zones (cfg : Cfg) (d : Desc) (zones : List String) (
     ((out.filter (fun i => !extendsOn op i.state)).map (·.zone)).Nodup ∧ (∀ i ∈ out, i ∈ d) :=
   let r := PfC02.walk_zone_facts cfg d zones op hza hz L st out h
   ⟨r.1, r.2.2⟩
+
+/-! ### End to end: the executors' success reports, composed with the intersection theorems
+
+`PC10.batch_success_implies_writeOk` (a `DoBatch` that reports success was acknowledged, for every key,
+by a `writeOk` set) and `PC11.quorum_success_implies_readOk` (a `DoUntilQuorum` that returns results was
+answered by a `readOkFlat` set / by `readOkZones` zones) feed the two theorems above. The runs are
+arbitrary interleavings of the executors' micro-step models (C10, C11), so the statement covers every
+outcome assignment, completion order and cancellation point of both calls. -/
+
+/-- Not zone-aware: if `DoBatch` reports success for a batch containing `key` (its replication set is
+`W`, instances numbered injectively by `aid`) and a ring-wide `DoUntilQuorum` read over `R` returns the
+results `rs`, then some instance both acknowledged the write of `key` and is among the instances whose
+results the read returned. -/
+theorem write_read_share_replica_flat (cfg : Cfg) (d : Desc) (toks toks' : List Nat) (key : Nat) (now : Int)
+    (W : RSet) (R : RSetAll) (hza : cfg.zoneAware = false)
+    (hW : get cfg d toks key opWrite now = .ok W) (hR : getAll cfg d toks' opRead now = .ok R)
+    -- the write: any run of the DoBatch model that has signalled success
+    {icount : Int} {ca : Option Nat} {gets : List C10.GetRes} {p : C10.Prep} {out : Nat → C10.Outcome}
+    {wevs : List C10.Ev} {ws : C10.St}
+    (hg : PfC10.GoodGets gets) (hp : C10.prepare icount ca gets = .ok p)
+    (hwr : C10.run (C10.initSt p out) wevs = some ws) (hd : ws.ret = some .done ∨ 1 ≤ ws.nDone)
+    (i : Nat) (aid : Inst → Nat)
+    (hinj : ∀ x ∈ W.instances, ∀ y ∈ W.instances, aid x = aid y → x = y) (hnd : W.instances.Nodup)
+    (hi : gets[i]? = some (.ok (W.instances.map aid) W.maxErrors))
+    -- the read: any run of the DoUntilQuorum model that returned results
+    {c : C11.Cfg} {order : List Nat} {pre : Bool} {revs : List C11.Ev} {rst : C11.St} {zid : String → Nat}
+    (hc : PfC11.Corresponds c R zid) (hrr : C11.run c (C11.init c order pre) revs = some rst)
+    (hzm : c.zoneMode = false) {rs : List Nat} (hm : rst.main = .retOk rs) :
+    ∃ x, x ∈ W.instances ∧ PfC10.Acked p ws i (aid x) ∧ x ∈ PfC11.answered R rs := by
+  obtain ⟨A, hA, hack⟩ := PC10.batch_success_implies_writeOk hg hp hwr hd i W aid hinj hnd hi
+  have hB := (PC11.quorum_success_implies_readOk hc hrr hm).1 hzm
+  obtain ⟨x, hxA, hxB⟩ := quorum_intersect_flat cfg d toks toks' key now W R A _ hza hW hR hA hB
+  exact ⟨x, hA.2.1 x hxA, hack x hxA, hxB⟩
+
+/-- Zone-aware: under the same premises with a zone-aware read, some instance acknowledged the write of
+`key` and its result is among those the read returned (it lies in a zone that answered completely). -/
+theorem write_read_share_replica_zones (cfg : Cfg) (d : Desc) (toks toks' : List Nat) (key : Nat) (now : Int)
+    (W : RSet) (R : RSetAll) (hza : cfg.zoneAware = true) (hz : ∀ i ∈ d, i.zone ≠ "")
+    (hW : get cfg d toks key opWrite now = .ok W) (hR : getAll cfg d toks' opRead now = .ok R)
+    {icount : Int} {ca : Option Nat} {gets : List C10.GetRes} {p : C10.Prep} {out : Nat → C10.Outcome}
+    {wevs : List C10.Ev} {ws : C10.St}
+    (hg : PfC10.GoodGets gets) (hp : C10.prepare icount ca gets = .ok p)
+    (hwr : C10.run (C10.initSt p out) wevs = some ws) (hd : ws.ret = some .done ∨ 1 ≤ ws.nDone)
+    (i : Nat) (aid : Inst → Nat)
+    (hinj : ∀ x ∈ W.instances, ∀ y ∈ W.instances, aid x = aid y → x = y) (hnd : W.instances.Nodup)
+    (hi : gets[i]? = some (.ok (W.instances.map aid) W.maxErrors))
+    {c : C11.Cfg} {order : List Nat} {pre : Bool} {revs : List C11.Ev} {rst : C11.St} {zid : String → Nat}
+    (hc : PfC11.Corresponds c R zid) (hrr : C11.run c (C11.init c order pre) revs = some rst)
+    (hzm : c.zoneMode = true) {rs : List Nat} (hm : rst.main = .retOk rs) :
+    ∃ x, x ∈ W.instances ∧ PfC10.Acked p ws i (aid x) ∧ x ∈ PfC11.answered R rs := by
+  obtain ⟨A, hA, hack⟩ := PC10.batch_success_implies_writeOk hg hp hwr hd i W aid hinj hnd hi
+  obtain ⟨hZ, hall, _⟩ := (PC11.quorum_success_implies_readOk hc hrr hm).2 hzm
+  obtain ⟨x, hxA, hxR, hxZ⟩ := quorum_intersect_zones cfg d toks toks' key now W R A _ hza hz hW hR hA hZ
+  exact ⟨x, hA.2.1 x hxA, hack x hxA, hall _ hxZ x hxR rfl⟩
+
 
 /-! ### The arithmetic is tight (regression witnesses, not part of the claim) -/
 
